@@ -184,10 +184,18 @@ pub(super) async fn process_command(
             (handle_throttle(&command_array, limiter, metrics).await, key)
         }
         "QUIT" => (RespValue::SimpleString("OK".to_string()), None),
-        _ => (
-            RespValue::Error(format!("ERR unknown command '{command}'")),
-            None,
-        ),
+        _ => {
+            // The name is client-supplied text: a CR or LF echoed into a RESP error line
+            // would end the line early and desynchronise the client's reply stream
+            let shown: String = command
+                .chars()
+                .map(|c| if c == '\r' || c == '\n' { ' ' } else { c })
+                .collect();
+            (
+                RespValue::Error(format!("ERR unknown command '{shown}'")),
+                None,
+            )
+        }
     };
 
     // Check if the request was allowed (for THROTTLE commands)
